@@ -40,7 +40,13 @@ fn main() {
                 Box::new(|input, _dev| {
                     let m = bytes_of(&input["m"]);
                     let starts = usizes_of(&input["starts"]);
-                    wire_new::codec_view(&m, &starts)
+                    let probes: Vec<(usize, usize)> = input["probes"]
+                        .as_array()
+                        .map(|a| a.iter().map(|p| (p[0].as_u64().unwrap_or(0) as usize, p[1].as_u64().unwrap_or(0) as usize)).collect())
+                        .unwrap_or_default();
+                    // where the referee leaves the RDATA open is part of the input
+                    let mask = wire_new::Mask::of(&input["und"]);
+                    wire_new::codec_view(&m, &starts, &probes, &mask)
                 })
             }
             let mut wd = Watchdog::new(mk, 12);
